@@ -25,6 +25,17 @@ WITNESSES = [
     ["dict", [[["int", 1], ["bytes", "78"]], [["str", "1"], ["bytes", "79"]]]],
     ["dict", [[["str", "1"], ["ndarray", "<f8", [2], "C", 1, False]], [["int", 1], ["sparse", "csr", [3, 4], 1]]]],
     ["list", [["bytes", "6162"], ["defaultdict", "list", [[["float", "0x1.8p+0"], ["bytearray", "0102"]], [["str", "1.5"], ["bytes", "79"]]]]]],
+    # a dump that fails AFTER members were written (the unsupported element comes last in its container, below a dict value /
+    # an attribute / a list): dumps raises and no archive exists -- an archive written nevertheless would hold unreferenced members
+    ["dict", [[["str", "history"], ["list", [["ndarray", "<f8", [4], "C", 1, False], ["bytes", "726177"], ["complex", "0x1.0p+0", "-0x1.0p+1"]]]], [["str", "n"], ["int", 1]]]],
+    ["userobj", "Plain", [["weights", ["ndarray", "<f8", [3], "C", 2, False]], ["extra", ["tuple", [["sparse", "csr", [3, 4], 1], ["generatorobj"]]]]]],
+    ["list", [["bytearray", "0102"], ["dict", [[["str", "k"], ["list", [["ndarray", "<i8", [2], "C", 3, False], ["generatorobj"]]]]]], ["int", 2]]],
+    # ... the same with an element skops refuses by name (UnsupportedTypeException: sklearn's Birch), as a dict value and as an attribute
+    ["dict", [[["str", "history"], ["list", [["ndarray", "<f8", [4], "C", 1, False], ["bytes", "726177"], ["estimator", "Birch", 0, False]]]], [["str", "n"], ["int", 1]]]],
+    ["userobj", "Plain", [["weights", ["ndarray", "<f8", [3], "C", 2, False]], ["helper", ["tuple", [["sparse", "csr", [3, 4], 1], ["estimator", "Birch", 0, False]]]]]],
+    # objects whose state consists of temporaries computed on demand (only the dump keeps them alive): ids stay distinct
+    ["list", [["userobj", "FreshState", [["db", ["float", "0x1.8p+0"]]]], ["userobj", "FreshState", [["db", ["float", "-0x1.ap+1"]]]],
+              ["userobj", "FreshState", [["db", ["float", "0x1.0p+3"]]]], ["userobj", "FreshState", [["db", ["float", "0x1.4p+2"]]]]]],
     # arrays with the same bytes and dtype but different shape / layout / scalar-ness are different members
     ["list", [["ndarray", "<f8", [2, 3], "C", 5, False], ["ndarray", "<f8", [6], "C", 5, False], ["ndarray", "<f8", [6, 1], "C", 5, False],
               ["ndarray", "<f8", [3, 2], "F", 5, False], ["ndarray", "<i8", [1], "C", 7, False], ["npscalar", "<i8", 7]]],
@@ -83,13 +94,16 @@ def run_sinks(R, specs, configs):
     return recs
 
 
-def oracle_sinks(spec, rec):
+def oracle_sinks(spec, rec, roundtrips=False):
     out = []
     vs = rec.get("variants") or {}
     if not vs:
         return out
     ref_key = "dumps/0/None"
     ref = vs.get(ref_key)
+    if roundtrips and (ref or {}).get("dump") == "ok" and str(rec.get("original", "")).startswith("ok:") and ref.get("load") != rec["original"]:
+        # a value of the supported grammar (the fixed witnesses): "... and load to equal objects"
+        out.append(("loaded-value-differs-from-original", ref_key, f"loaded value {str(ref.get('load'))[:160]} vs the dumped value {rec['original'][:160]}"))
     for key, v in vs.items():
         sink, method, level = key.split("/")
         if v.get("dump") != (ref or {}).get("dump") and not (v.get("dump", "").startswith("err") and (ref or {}).get("dump", "").startswith("err")):
@@ -150,7 +164,7 @@ def run(R, only=None):
     for spec, rec in zip(sspecs, srecs):
         nvar += len(rec.get("variants") or {})
         R.case({"sinks": spec}, nontrivial=True)
-        for kind, key, what in oracle_sinks(spec, rec):
+        for kind, key, what in oracle_sinks(spec, rec, roundtrips=any(spec is w for w in WITNESSES)):
             sink, method, level = key.split("/")
             R.violation({"kind": kind, "sink": sink, "method": int(method)}, f"{key}: {what}", {"spec": spec, "variant": key})
     R.notes["sink_compression_variants"] = f"{nvar} archives of {len(sspecs)} values: 4 sinks x {len(configs)} (method, level) settings, each compared with dumps/STORED"
